@@ -219,4 +219,345 @@ example : (transformTabindex Tables.current "div".toList none (tabState 7)).map 
 example : (transformTabindex Tables.current "div".toList none (tabState 0)).map (fun s => (s.attrs, s.ctx.getItem sTabindex)) =
     .ok ([], .ok (.int 0)) := by decide
 
+/-! ### TABINDEX WITHIN A SCOPE, for every int counter (p3)
+
+`scopeHanded` (Proofs/Lemmas/C19Scope.lean) recognises a hand-out by the CONTEXT CHANGE it causes,
+so it sees nothing when the counter is negative (handed out, not advanced).  `scopeGiven` below
+lists the values the tabindex transform WRITES INTO THE ATTRIBUTES of the tag calls of the scope
+(decision table `attrWritten`, counter ≠ 0) — whether or not the counter moves. -/
+
+/-- the state a tag call's transforms start from -/
+def tagStart (g : Gen) (kwargs : List (Str × Val)) : TState :=
+  ⟨Flatland.C11.transformKeys (Dict.erase kwargs "contents".toList), Dict.get? kwargs "contents".toList, g.ctx⟩
+
+/-- the four transforms that run before `transform_tabindex` -/
+def transformUpToFor (T : Tables) (tag : Str) (bnd : Option Bind) (st : TState) : Except PyErr TState := do
+  let st ← transformName T tag bnd st
+  let st ← transformValue T tag bnd st
+  let st ← transformDomid T tag bnd st
+  transformFor T tag bnd st
+
+theorem transformPrefix_eq (T : Tables) (tag : Str) (bnd : Option Bind) (st : TState) :
+    transformPrefix T tag bnd st = (transformUpToFor T tag bnd st).bind (transformTabindex T tag bnd) := by
+  unfold transformPrefix transformUpToFor
+  simp only [bind, Except.bind]
+  cases transformName T tag bnd st with
+  | error e => rfl
+  | ok s1 =>
+    simp only
+    cases transformValue T tag bnd s1 with
+    | error e => rfl
+    | ok s2 =>
+      simp only
+      cases transformDomid T tag bnd s2 with
+      | error e => rfl
+      | ok s3 => cases transformFor T tag bnd s3 <;> rfl
+
+theorem transformUpToFor_ctx {T : Tables} {tag : Str} {bnd : Option Bind} {st s4 : TState}
+    (h : transformUpToFor T tag bnd st = .ok s4) : s4.ctx = st.ctx := by
+  unfold transformUpToFor at h
+  simp only [bind, Except.bind] at h
+  cases h1 : transformName T tag bnd st with
+  | error e => rw [h1] at h; simp at h
+  | ok s1 =>
+    rw [h1] at h; simp only at h
+    cases h2 : transformValue T tag bnd s1 with
+    | error e => rw [h2] at h; simp at h
+    | ok s2 =>
+      rw [h2] at h; simp only at h
+      cases h3 : transformDomid T tag bnd s2 with
+      | error e => rw [h3] at h; simp at h
+      | ok s3 =>
+        rw [h3] at h; simp only at h
+        rw [transformFor_ctx h, transformDomid_ctx h3, transformValue_ctx h2, transformName_ctx h1]
+
+/-- THE TABINDEX A TAG CALL RECEIVES from the transform (`none`: the transform writes nothing —
+    option off, not one of its tags / attribute given and not forced, counter 0, or the call raised
+    before reaching the transform).  The decision is the table `attrWritten`, the value the counter. -/
+def tagGiven (T : Tables) (g : Gen) (tag : Str) (bnd : Option Bind) (kwargs : List (Str × Val)) : Option Int :=
+  match transformUpToFor T tag bnd (tagStart g kwargs) with
+  | .error _ => none
+  | .ok s4 =>
+    match popToggle T "auto_tabindex".toList s4.attrs s4.ctx, counter g with
+    | .ok (a, p, f), some n =>
+      if attrWritten p f (T.autoTag sTabindex tag) (Dict.get? a sTabindex).isSome = true ∧ n ≠ 0 then some n else none
+    | _, _ => none
+
+/-- the values written by the tabindex transform into the tag calls made at depth `d`, in order -/
+def scopeGiven (T : Tables) (R : RenderCfg) (d : Nat) : Gen → List Op → List Int
+  | _, [] => []
+  | g, op :: rest =>
+    (match op with
+     | .tag name bnd kwargs => if g.ctx.depth == d then (tagGiven T g name bnd kwargs).toList else []
+     | _ => []) ++ scopeGiven T R d (step T R g op).1 rest
+
+/-- what the code does with a counter `n`: `n, n+1, n+2, …` for a positive one, `n, n, n, …` for a
+    non-positive one (`handOut`) -/
+def tabSeq (n : Int) : Nat → List Int
+  | 0 => []
+  | k + 1 => (handOut n).1 :: tabSeq (handOut n).2 k
+
+theorem tabSeq_pos (n : Int) (hn : n > 0) (k : Nat) : tabSeq n k = (List.range k).map (fun i : Nat => n + (i : Int)) := by
+  induction k generalizing n with
+  | zero => rfl
+  | succ k ih =>
+    rw [tabSeq, (handOut_cases n).1 hn, ih (n + 1) (by omega), List.range_succ_eq_map]
+    simp only [List.map_cons, List.map_map, Int.ofNat_zero, Int.add_zero, List.cons.injEq, true_and]
+    apply List.map_congr_left
+    intro i _
+    simp only [Function.comp, Nat.succ_eq_add_one, Int.natCast_add, Int.natCast_one]
+    omega
+
+theorem tabSeq_nonpos (n : Int) (hn : n ≤ 0) (k : Nat) : tabSeq n k = List.replicate k n := by
+  induction k with
+  | zero => rfl
+  | succ k ih => rw [tabSeq, (handOut_cases n).2 hn, ih]; rfl
+
+theorem counter_getItem {g : Gen} {m : Int} (h : counter g = some m) : g.ctx.getItem sTabindex = .ok (.int m) := by
+  unfold counter at h
+  split at h
+  · rename_i n hn; simp only [Option.some.injEq] at h; subst h; exact hn
+  · cases h
+
+theorem step_tag_below (T : Tables) (R : RenderCfg) (g : Gen) (name : Str) (bnd : Option Bind)
+    (kwargs : List (Str × Val)) : (step T R g (.tag name bnd kwargs)).1.ctx.below = g.ctx.below := by
+  obtain ⟨g', o, hst, _, hctx⟩ := step_tag_effect T R g name bnd kwargs
+  rw [hst]
+  rcases hctx with heq | ⟨k, _, _, hs⟩
+  · rw [heq]
+  · obtain ⟨e, _⟩ := setItem_ok hs; rw [e]
+
+/-- ONE TAG CALL, exactly: it receives a tabindex iff `tagGiven` says so; the value is the counter
+    `m ≠ 0`; the counter afterwards is `(handOut m).2` (`m + 1` for a positive `m`, `m` otherwise);
+    the context changes iff a POSITIVE counter was handed out -/
+theorem tag_given_step (T : Tables) (R : RenderCfg) (g : Gen) (name : Str) (bnd : Option Bind)
+    (kwargs : List (Str × Val)) (m : Int) (hc : counter g = some m) :
+    match tagGiven T g name bnd kwargs with
+    | some x => x = m ∧ m ≠ 0 ∧ counter (step T R g (.tag name bnd kwargs)).1 = some (handOut m).2 ∧
+        (m > 0 → (step T R g (.tag name bnd kwargs)).1.ctx ≠ g.ctx) ∧
+        (m ≤ 0 → (step T R g (.tag name bnd kwargs)).1.ctx = g.ctx)
+    | none => (step T R g (.tag name bnd kwargs)).1.ctx = g.ctx := by
+  rw [step_tag_gen]
+  unfold Gen.afterFailedTag tagGiven tagStart
+  rw [transformPrefix_eq]
+  cases h4 : transformUpToFor T name bnd ⟨Flatland.C11.transformKeys (Dict.erase kwargs "contents".toList),
+      Dict.get? kwargs "contents".toList, g.ctx⟩ with
+  | error e => simp only [Except.bind]
+  | ok s4 =>
+    have e04 : s4.ctx = g.ctx := transformUpToFor_ctx h4
+    have hn : s4.ctx.getItem sTabindex = .ok (.int m) := by rw [e04]; exact counter_getItem hc
+    simp only [Except.bind]
+    cases hp : popToggle T "auto_tabindex".toList s4.attrs s4.ctx with
+    | error e =>
+      have : transformTabindex T name bnd s4 = .error e := by
+        unfold transformTabindex; simp only [bind, Except.bind, hp]
+      simp only [this]
+    | ok r =>
+      obtain ⟨a, p, f⟩ := r
+      have hx := transformTabindex_exact T name bnd s4 a p f m hp hn
+      simp only [hx, hc]
+      by_cases hw : attrWritten p f (T.autoTag sTabindex name) (Dict.get? a sTabindex).isSome = true ∧ m ≠ 0
+      · simp only [if_pos hw]
+        refine ⟨by first | trivial | rfl, hw.2, ?_, ?_, ?_⟩
+        · by_cases hpos : m > 0
+          · simp only [if_pos hpos, counter, Ctx.getItem, Dict.get?_set_self, pure, Except.pure]
+          · simp only [if_neg hpos, e04]
+            rw [(handOut_cases m).2 (by omega)]
+            have : counter ({ xml := g.xml, ctx := g.ctx } : Gen) = counter g := rfl
+            rw [this, hc]
+        · intro hpos heq
+          simp only [if_pos hpos] at heq
+          have h1 : counter g = some (handOut m).2 := by
+            unfold counter; rw [← heq]; simp only [Ctx.getItem, Dict.get?_set_self, pure, Except.pure]
+          rw [hc, (handOut_cases m).1 hpos] at h1
+          simp only [Option.some.injEq] at h1
+          omega
+        · intro hle
+          have hpos : ¬ m > 0 := by omega
+          simp only [if_neg hpos, e04]
+      · simp only [if_neg hw, e04]
+
+theorem scopeGiven_cons_nil (T : Tables) (R : RenderCfg) (d : Nat) (g : Gen) (op : Op) (rest : List Op)
+    (h : isTag op = false ∨ (g.ctx.depth == d) = false) :
+    scopeGiven T R d g (op :: rest) = scopeGiven T R d (step T R g op).1 rest := by
+  cases op <;> first
+    | (simp only [scopeGiven, List.nil_append]; done)
+    | (rcases h with h | h
+       · simp [isTag] at h
+       · simp only [scopeGiven, h, Bool.false_eq_true, if_false, List.nil_append])
+
+theorem scopeHanded_cons_nil (T : Tables) (R : RenderCfg) (d : Nat) (g : Gen) (op : Op) (rest : List Op)
+    (h : isTag op = false ∨ (g.ctx.depth == d) = false ∨ (step T R g op).1.ctx = g.ctx) :
+    scopeHanded T R d g (op :: rest) = scopeHanded T R d (step T R g op).1 rest := by
+  rcases h with h | h | h <;> simp [scopeHanded, h]
+
+theorem scope_exact_aux (T : Tables) (R : RenderCfg) (B : List Frame) :
+    ∀ (ops : List Op) (g : Gen) (m : Int), ScopeInv B m g →
+      staysAbove T R (B.length + 1) g ops = true → noTabWriteAt T R (B.length + 1) g ops = true →
+      scopeGiven T R (B.length + 1) g ops = tabSeq m (scopeGiven T R (B.length + 1) g ops).length ∧
+      (m = 0 → scopeGiven T R (B.length + 1) g ops = []) ∧
+      (m > 0 → scopeGiven T R (B.length + 1) g ops = scopeHanded T R (B.length + 1) g ops)
+  | [], _, _, _, _, _ => by simp [scopeGiven, scopeHanded, tabSeq]
+  | op :: rest, g, m, hinv, hstay, hnw => by
+    simp only [staysAbove, Bool.and_eq_true, decide_eq_true_eq] at hstay
+    simp only [noTabWriteAt, Bool.and_eq_true, Bool.not_eq_true', Bool.and_eq_false_iff] at hnw
+    rcases hinv with ⟨hB, hc⟩ | ⟨pre, F, hB, hF⟩
+    · have hd : g.ctx.depth = B.length + 1 := by simp [Ctx.depth, hB]
+      cases hop : isTag op with
+      | true =>
+        cases op with
+        | tag name bnd kwargs =>
+          have hbelow : (step T R g (.tag name bnd kwargs)).1.ctx.below = B := by
+            rw [step_tag_below]; exact hB
+          have hs := tag_given_step T R g name bnd kwargs m hc
+          cases hg : tagGiven T g name bnd kwargs with
+          | none =>
+            rw [hg] at hs; simp only at hs
+            have hc' : counter (step T R g (.tag name bnd kwargs)).1 = some m := by
+              simp only [counter, hs] at hc ⊢; exact hc
+            have ih := scope_exact_aux T R B rest _ m (Or.inl ⟨hbelow, hc'⟩) hstay.2 hnw.2
+            have e1 : scopeGiven T R (B.length + 1) g (.tag name bnd kwargs :: rest) =
+                scopeGiven T R (B.length + 1) (step T R g (.tag name bnd kwargs)).1 rest := by
+              simp only [scopeGiven, hd, beq_self_eq_true, if_true, hg, Option.toList, List.nil_append]
+            rw [e1, scopeHanded_cons_nil T R _ g _ rest (Or.inr (Or.inr hs))]
+            exact ih
+          | some x =>
+            rw [hg] at hs; simp only at hs
+            obtain ⟨rfl, h0, hc', hne, _⟩ := hs
+            have ih := scope_exact_aux T R B rest _ (handOut x).2 (Or.inl ⟨hbelow, hc'⟩) hstay.2 hnw.2
+            have e1 : scopeGiven T R (B.length + 1) g (.tag name bnd kwargs :: rest) =
+                x :: scopeGiven T R (B.length + 1) (step T R g (.tag name bnd kwargs)).1 rest := by
+              simp only [scopeGiven, hd, beq_self_eq_true, if_true, hg, Option.toList, List.singleton_append]
+            rw [e1]
+            refine ⟨?_, fun h => absurd h h0, ?_⟩
+            · simp only [List.length_cons, tabSeq]
+              rw [← ih.1]; rfl
+            · intro hpos
+              have e2 : scopeHanded T R (B.length + 1) g (.tag name bnd kwargs :: rest) =
+                  x :: scopeHanded T R (B.length + 1) (step T R g (.tag name bnd kwargs)).1 rest := by
+                simp only [scopeHanded, isTag, hd, beq_self_eq_true, Bool.true_and, hne hpos, ne_eq, not_false_eq_true,
+                  decide_true, if_true, hc, List.singleton_append]
+              rw [e2, ih.2.2 (by rw [(handOut_cases x).1 hpos]; simp only; omega)]
+        | _ => simp [isTag] at hop
+      | false =>
+        have hw : writesTab op = false := by
+          rcases hnw.1 with h | h
+          · simp [hd] at h
+          · exact h
+        rw [scopeGiven_cons_nil T R _ g op rest (Or.inl hop), scopeHanded_cons_nil T R _ g op rest (Or.inl hop)]
+        rcases step_notab T R g op hop hw with ⟨hb, hg⟩ | hpush | ⟨f, rs, hbl, hc'⟩
+        · apply scope_exact_aux T R B rest _ m _ hstay.2 hnw.2
+          exact Or.inl ⟨by rw [hb]; exact hB, by rw [counter_eq] at hc ⊢; rw [hg]; exact hc⟩
+        · apply scope_exact_aux T R B rest _ m _ hstay.2 hnw.2
+          exact Or.inr ⟨[], g.ctx.top, by rw [hpush, hB]; rfl, (counter_eq g m).mp hc⟩
+        · exfalso
+          have h1 := hstay.1
+          rw [hc'] at h1
+          rw [hB] at hbl
+          simp [Ctx.depth, hbl] at h1
+          omega
+    · have hd : (g.ctx.depth == B.length + 1) = false := by
+        simp [Ctx.depth, hB]; omega
+      rw [scopeGiven_cons_nil T R _ g op rest (Or.inr hd), scopeHanded_cons_nil T R _ g op rest (Or.inr (Or.inl hd))]
+      rcases (step_move T R g op).1 with hk | hp | ⟨f, rs, hbl, _, hc'⟩
+      · apply scope_exact_aux T R B rest _ m _ hstay.2 hnw.2
+        exact Or.inr ⟨pre, F, by rw [hk]; exact hB, hF⟩
+      · apply scope_exact_aux T R B rest _ m _ hstay.2 hnw.2
+        exact Or.inr ⟨g.ctx.top :: pre, F, by rw [hp, hB]; rfl, hF⟩
+      · apply scope_exact_aux T R B rest _ m _ hstay.2 hnw.2
+        cases pre with
+        | nil =>
+          rw [hB] at hbl
+          simp only [List.nil_append, List.cons.injEq] at hbl
+          obtain ⟨rfl, rfl⟩ := hbl
+          exact Or.inl ⟨by rw [hc'], by rw [counter_eq, hc']; exact hF⟩
+        | cons p ps =>
+          rw [hB] at hbl
+          simp only [List.cons_append, List.cons.injEq] at hbl
+          obtain ⟨rfl, rfl⟩ := hbl
+          exact Or.inr ⟨ps, F, by rw [hc'], hF⟩
+
+/-- **TABINDEX WITHIN A SCOPE, EXACTLY, FOR EVERY INT COUNTER** (KF-C19-b stated as what the code
+    does; pinned by tests/markup/test_transforms.py::test_tabindex_stop_numbers).  From a generator
+    at depth `d` whose counter is the int `n`, for ANY calls that never close the scope and do not
+    themselves write `tabindex` at depth `d` (accepted / rejected `set/update/[]=`, nested blocks
+    with their own counters, tag calls that raise, tag calls that get no tabindex): the values the
+    tabindex transform writes into the successive tag calls of the scope that receive one are
+    `n, n+1, n+2, …` when `n > 0`, the constant `n, n, n, …` when `n < 0`, and nothing is written
+    when `n = 0`. -/
+theorem scope_tabindex_exact (T : Tables) (R : RenderCfg) (ops : List Op) (g : Gen) (n : Int)
+    (hc : counter g = some n)
+    (hstay : staysAbove T R g.ctx.depth g ops = true) (hnw : noTabWriteAt T R g.ctx.depth g ops = true) :
+    (n > 0 → scopeGiven T R g.ctx.depth g ops =
+        (List.range (scopeGiven T R g.ctx.depth g ops).length).map (fun i : Nat => n + (i : Int))) ∧
+    (n < 0 → scopeGiven T R g.ctx.depth g ops = List.replicate (scopeGiven T R g.ctx.depth g ops).length n) ∧
+    (n = 0 → scopeGiven T R g.ctx.depth g ops = []) := by
+  have hd : g.ctx.depth = g.ctx.below.length + 1 := rfl
+  rw [hd] at hstay hnw ⊢
+  obtain ⟨h1, h2, _⟩ := scope_exact_aux T R g.ctx.below ops g n (Or.inl ⟨rfl, hc⟩) hstay hnw
+  refine ⟨fun hn => ?_, fun hn => ?_, h2⟩
+  · rw [← tabSeq_pos n hn]; exact h1
+  · rw [← tabSeq_nonpos n (by omega)]; exact h1
+
+/-- for a positive counter the written values are exactly what `scopeHanded` lists (a positive
+    hand-out is the one thing that changes the context) -/
+theorem scopeGiven_eq_scopeHanded (T : Tables) (R : RenderCfg) (ops : List Op) (g : Gen) (n : Int)
+    (hc : counter g = some n) (hn : n > 0)
+    (hstay : staysAbove T R g.ctx.depth g ops = true) (hnw : noTabWriteAt T R g.ctx.depth g ops = true) :
+    scopeGiven T R g.ctx.depth g ops = scopeHanded T R g.ctx.depth g ops := by
+  have hd : g.ctx.depth = g.ctx.below.length + 1 := rfl
+  rw [hd] at hstay hnw ⊢
+  exact (scope_exact_aux T R g.ctx.below ops g n (Or.inl ⟨rfl, hc⟩) hstay hnw).2.2 hn
+
+theorem range_map_add_pairwise (n : Int) (k : Nat) :
+    ((List.range k).map (fun i : Nat => n + (i : Int))).Pairwise (· < ·) := by
+  rw [List.pairwise_map]
+  exact List.Pairwise.imp (fun h => by omega) (List.pairwise_lt_range)
+
+/-- `scope_tabindex_increasing` as a COROLLARY of the exact statement (same statement, new proof) -/
+theorem scope_tabindex_increasing_of_exact (T : Tables) (R : RenderCfg) (ops : List Op) (g : Gen) (n : Int)
+    (hc : counter g = some n) (hn : n > 0)
+    (hstay : staysAbove T R g.ctx.depth g ops = true) (hnw : noTabWriteAt T R g.ctx.depth g ops = true) :
+    (scopeHanded T R g.ctx.depth g ops).Pairwise (· < ·) ∧ ∀ x ∈ scopeHanded T R g.ctx.depth g ops, n ≤ x := by
+  rw [← scopeGiven_eq_scopeHanded T R ops g n hc hn hstay hnw,
+    (scope_tabindex_exact T R ops g n hc hstay hnw).1 hn]
+  refine ⟨range_map_add_pairwise n _, ?_⟩
+  intro x hx
+  obtain ⟨i, _, rfl⟩ := List.mem_map.mp hx
+  omega
+
+/-- a negative counter: two tag calls of one scope that both receive a tabindex receive THE SAME one -/
+theorem scope_tabindex_stop_number (T : Tables) (R : RenderCfg) (ops : List Op) (g : Gen) (n : Int)
+    (hc : counter g = some n) (hn : n < 0)
+    (hstay : staysAbove T R g.ctx.depth g ops = true) (hnw : noTabWriteAt T R g.ctx.depth g ops = true) :
+    ∀ x ∈ scopeGiven T R g.ctx.depth g ops, x = n := by
+  intro x hx
+  rw [(scope_tabindex_exact T R ops g n hc hstay hnw).2.1 hn] at hx
+  exact (List.mem_replicate.mp hx).2
+
+/-! ### non-vacuity: the mixed scope `scopeOps` (set, nested block with its own counter 50, rejected
+update, a tag that gets nothing) from counters 3, -1 and 0 -/
+
+def tabGenN (n : Int) : Gen :=
+  match Gen.init Tables.current "xhtml".toList [("auto_tabindex".toList, .bool true), ("tabindex".toList, .int n)] with
+  | .ok g => g
+  | .error _ => ⟨false, ⟨[], []⟩⟩
+
+example : counter (tabGenN 3) = some 3 ∧ counter (tabGenN (-1)) = some (-1) ∧ counter (tabGenN 0) = some 0 := by decide
+example : staysAbove Tables.current RenderCfg.current (tabGenN 3).ctx.depth (tabGenN 3) scopeOps = true ∧
+    noTabWriteAt Tables.current RenderCfg.current (tabGenN 3).ctx.depth (tabGenN 3) scopeOps = true := by decide
+example : staysAbove Tables.current RenderCfg.current (tabGenN (-1)).ctx.depth (tabGenN (-1)) scopeOps = true ∧
+    noTabWriteAt Tables.current RenderCfg.current (tabGenN (-1)).ctx.depth (tabGenN (-1)) scopeOps = true := by decide
+example : staysAbove Tables.current RenderCfg.current (tabGenN 0).ctx.depth (tabGenN 0) scopeOps = true ∧
+    noTabWriteAt Tables.current RenderCfg.current (tabGenN 0).ctx.depth (tabGenN 0) scopeOps = true := by decide
+example : scopeGiven Tables.current RenderCfg.current (tabGenN 3).ctx.depth (tabGenN 3) scopeOps = [3, 4, 5] := by decide
+/-- stop number: every tag of the scope gets -1 — invisible to `scopeHanded` (the context never changes) -/
+example : scopeGiven Tables.current RenderCfg.current (tabGenN (-1)).ctx.depth (tabGenN (-1)) scopeOps = [-1, -1, -1] ∧
+    scopeHanded Tables.current RenderCfg.current (tabGenN (-1)).ctx.depth (tabGenN (-1)) scopeOps = [] := by decide
+example : scopeGiven Tables.current RenderCfg.current (tabGenN 0).ctx.depth (tabGenN 0) scopeOps = [] := by decide
+/-- … and -1 is what is rendered, twice -/
+example : ((run Tables.current RenderCfg.current (tabGenN (-1)) [tagInput [], tagInput []]).2.map (·.1.out)) =
+    [some "<input name=\"fld\" value=\"val\" tabindex=\"-1\" />".toList,
+     some "<input name=\"fld\" value=\"val\" tabindex=\"-1\" />".toList] := by decide
+
 end Flatland.C19.Proofs
